@@ -437,6 +437,178 @@ def t_partial():
     p = partial(f, 1, c=5)
     return (p(2), p(2, c=7), partial(p, 9)())
 
+class _Acc:
+    total = 0
+    def __init__(self, start=0):
+        self.items = []
+        self.start = start
+    def add(self, x):
+        self.items.append(x)
+        return self
+    @property
+    def size(self):
+        return len(self.items) + self.start
+    def __repr__(self):
+        return '_Acc(%r)' % (self.items,)
+
+class _Sub(_Acc):
+    def add(self, x):
+        self.items.append(x * 2)
+        return self
+
+def t_module_class():
+    a = _Acc(1).add(2).add(3)
+    b = _Sub().add(2)
+    return (a.items, a.size, b.items, b.size, isinstance(b, _Acc), type(b).__name__, _Acc.total)
+
+def t_late_binding():
+    fs = []
+    for i in range(3):
+        fs.append(lambda: i)
+    return [f() for f in fs]
+
+def t_closure_over_loop_var_default():
+    fs = [(lambda j=j: j * 2) for j in range(3)]
+    return [f() for f in fs]
+
+def t_finally_continue_break():
+    log = []
+    for i in range(4):
+        try:
+            if i == 1:
+                continue
+            if i == 3:
+                break
+            log.append(i)
+        finally:
+            log.append('f%d' % i)
+    return log
+
+def t_generator_return_and_state():
+    def g():
+        yield 1
+        return
+        yield 2
+    def countdown(n):
+        while n:
+            yield n
+            n -= 1
+    return (list(g()), list(countdown(3)), sum(countdown(4)))
+
+def t_zip_star():
+    pairs = [(1, 'a'), (2, 'b')]
+    nums, letters = zip(*pairs)
+    return (nums, letters, list(zip(*[[1, 2], [3, 4]])))
+
+def t_del_and_slices():
+    l = list(range(6))
+    del l[0]
+    del l[1:3]
+    l[1:2] = [9, 9]
+    m = l[:]
+    m.append(0)
+    return (l, m, l[::-1], l[-2:])
+
+def t_list_concat_inplace():
+    l = [1]
+    alias = l
+    l += (2, 3)
+    m = l + [4]
+    l = l + [5]
+    return (alias, l, m)
+
+def t_str_partition_etc():
+    s = 'key=value=x'
+    return (s.partition('='), s.rpartition('='), s.split('=', 1), s.rsplit('=', 1), s.title(), s.isidentifier(), 'a1'.isalnum(), ' '.isspace(), s.zfill(13), s.index('v'))
+
+def t_short_circuit_side_effects():
+    log = []
+    def t(x):
+        log.append(x)
+        return x
+    r = (t(0) or t(2) or t(3), t(1) and t(0) and t(5), any(t(v) for v in [0, 7, 8]))
+    return (r, log)
+
+def t_tuple_compare_sort():
+    data = [(2, 'a'), (1, 'b'), (1, 'a'), (2,)]
+    return (sorted(data), (1, 2) < (1, 3), (1, 2) == (1, 2), (1,) < (1, 0), max(data), [1, 2] < [1, 3])
+
+def t_dict_iteration_mutating_copy():
+    d = {'a': 1, 'b': 2}
+    for k in list(d):
+        if d[k] == 1:
+            del d[k]
+        else:
+            d[k + 'x'] = 0
+    return (list(d.items()), {**d}, dict(d, z=1), sorted(d, key=lambda k: -d[k]))
+
+def t_nested_functions_and_args():
+    def outer(a, *rest, key=None, **opts):
+        def inner(b):
+            return (a, b, rest, key, sorted(opts))
+        return inner
+    return outer(1, 2, 3, key='k', z=1, y=2)('b')
+
+def t_string_building():
+    parts = []
+    for i, w in enumerate(['a', 'bb', 'ccc']):
+        parts.append('%d:%s' % (i, w.upper()))
+    out = ', '.join(parts)
+    return (out, len(out), out[::-1][:3], out.replace(':', '='), '{:>6}|'.format('ab'), '[' + ']['.join(map(str, range(3))) + ']')
+
+def t_none_checks():
+    vals = [None, 0, '', [], {}, 'x']
+    return ([v is None for v in vals], [v if v is not None else 'dflt' for v in vals], [bool(v) for v in vals], [v or 'alt' for v in vals])
+
+def t_try_in_function_returns():
+    def f(d, k):
+        try:
+            return d[k]
+        except KeyError:
+            return 'missing'
+        finally:
+            pass
+    def g(x):
+        try:
+            return int(x)
+        except (TypeError, ValueError) as e:
+            return type(e).__name__
+    return (f({'a': 1}, 'a'), f({}, 'a'), g('12'), g('x'), g(None))
+
+def t_min_max_key_default():
+    return (min([3, 1, 2]), max('abc'), min([], default='d'), max([(1, 'a'), (1, 'b')]), min(['bb', 'a'], key=len), max(1, 2, 3), min('b', 'a'))
+
+def t_int_str_conversions():
+    return (int('  7 '), str(12) + 'a', float('2.50'), int(-2.7), bool([]), list('ab'), tuple([1]), str(None), int(True), '%d' % 3.9, round(7.5), round(-0.5))
+
+def t_augmented_string_in_loop():
+    s = ''
+    n = 0
+    for ch in 'a-b-c':
+        if ch == '-':
+            n += 1
+            continue
+        s += ch * n
+    return (s, n)
+
+def t_while_with_else_and_state_machine():
+    tokens = list('aab,bc,,d')
+    out, cur = [], ''
+    i = 0
+    while i < len(tokens):
+        t = tokens[i]
+        i += 1
+        if t == ',':
+            if cur:
+                out.append(cur)
+            cur = ''
+            continue
+        cur += t
+    else:
+        if cur:
+            out.append(cur)
+    return out
+
 def t_ordereddict_counter():
     from collections import OrderedDict
     od = OrderedDict([('b', 1), ('a', 2)])
